@@ -1,4 +1,6 @@
 import CatiiProofs.IndxTop
+import CatiiProofs.AppendOnly
+import CatiiModel.Gen.IndxFileOps
 /-!
 # C12 — a torn INDX file is always rejected
 
@@ -8,6 +10,14 @@ size word, or — once the 16-byte header is intact — the mapping of `16 + siz
 exceeds the bytes present because the recorded size is the real payload length (C11a).
 Assumption (validated by the harness on every prefix): mapping more bytes than the file holds
 raises.
+
+"What was written" when a save is cut short is a *prefix* of the complete file because the writer only appends:
+`save_is_append_only` (on the list of file operations of `IndxIO.save`, **regenerated from the source on every run** —
+a `seek`, `truncate` or any other use of the file object breaks it) and `interrupted_writer_leaves_a_prefix` (an
+append-only writer stopped after any number of operations and any number of bytes of the next one); together with
+`torn_file_rejected`: `interrupted_save_never_loads`.  The harness also interrupts the real writer and loads what it
+left.  Trusted: that `write` / `tofile` append at the end of the file and never leave bytes beyond those they were
+given (file-system semantics; a handle opened in another mode is C10/C11's subject).
 -/
 namespace Catii.C12
 open Catii.Indx
@@ -30,6 +40,28 @@ theorem torn_file_never_loads (es : List Entry) (c : Nat) (b : Bytes) (hs : save
   intro r hr
   obtain ⟨e, he, _⟩ := torn_file_rejected es c b hs k hk
   rw [hr] at he; cases he
+
+/-- the writer touches its file object through `f.write(...)`, `array.tofile(f)` and `f.tell()` only (regenerated) -/
+theorem save_is_append_only :
+    ∀ op ∈ Gen.saveFileOps, op = "write" ∨ op = "tofile(file)" ∨ op = "tell" := by
+  decide
+
+/-- an append-only writer stopped after `k` whole operations and `h` bytes of the next leaves a prefix -/
+theorem interrupted_writer_leaves_a_prefix (ops : List FileOps.FileOp) (k h : Nat) :
+    FileOps.interruptedAt ops k h <+: FileOps.contents ops :=
+  FileOps.interrupted_is_prefix ops k h
+
+/-- so: whatever sequence of appends produces the file of `save es c`, stopping it anywhere short of the end leaves
+something the loader rejects -/
+theorem interrupted_save_never_loads (es : List Entry) (c : Nat) (b : Bytes) (hs : save es c = .ok b)
+    (ops : List FileOps.FileOp) (hops : FileOps.contents ops = b) (k h : Nat)
+    (hshort : (FileOps.interruptedAt ops k h).length < b.length) :
+    ∀ r, load (FileOps.interruptedAt ops k h) ≠ .ok r := by
+  have hp := FileOps.interrupted_is_prefix ops k h
+  rw [hops] at hp
+  have : FileOps.interruptedAt ops k h = b.take (FileOps.interruptedAt ops k h).length := List.prefix_iff_eq_take.mp hp
+  rw [this]
+  exact torn_file_never_loads es c b hs _ hshort
 
 /-! Non-vacuity: a real file and cuts in each region (inside the magic, inside the size word,
 just after the header, one byte short of the end). -/
